@@ -105,7 +105,7 @@ def emit(root, o):
         return root.to_boc(has_idx=bool(o['idx']), hash_crc32=bool(o['crc']), has_cache_bits=bool(o['cache']))
 
 
-def emit_with_hashes(root, which):
+def emit_with_hashes(root, which, corrupt=None):
     """input construction: a serialized_boc of root's DAG in which cells carry their stored hashes and depths (the "with hashes"
     descriptor flag): which = 'exotic' (special cells only), 'level' (cells of level > 0) or 'all'.  The stored values are the
     ones the live cells report; what the parser makes of the bag is judged by TLC like every other route."""
@@ -123,6 +123,7 @@ def emit_with_hashes(root, which):
     pos = {id(c): k for k, c in enumerate(order)}
     size = 1 if len(order) < 256 else 2
     body = bytearray()
+    stored = []                                     # (offset, length) of every stored hash / depth field written
     for c in order:
         m = c.level_mask.mask
         ex = c.type_ != -1
@@ -136,12 +137,18 @@ def emit_with_hashes(root, which):
         if wh:
             lv = [l for l in range(4) if l == 0 or (m >> (l - 1)) & 1]
             for l in lv:
+                stored.append((len(body), 32))
                 body += c.get_hash(l)
             for l in lv:
+                stored.append((len(body), 2))
                 body += c.get_depth(l).to_bytes(2, 'big')
         body += own[2:2 + nbytes]
         for r in c.refs:
             body += pos[id(r)].to_bytes(size, 'big')
+    if corrupt is not None and stored:
+        # a bag whose stored values are NOT the cells' hashes / depths: a parser may refuse it, but must not believe it
+        off, ln = corrupt.choice(stored)
+        body[off + corrupt.randrange(ln)] ^= 1 << corrupt.randrange(8)
     offb = 2 if len(body) < 65536 else 3
     hdr = b'\xb5\xee\x9c\x72' + bytes([size, offb]) + len(order).to_bytes(size, 'big') + (1).to_bytes(size, 'big') + (0).to_bytes(size, 'big') \
         + len(body).to_bytes(offb, 'big') + (0).to_bytes(size, 'big')
